@@ -40,28 +40,18 @@ ASSUME = [
     "clause; here it is tied bit-exactly to the model by correspondence, not bounded by a theorem",
 ]
 
-# ------------------------------------------------------------------------------------------------
-# Findings of the pinned tree that this check reproduces on every run.  They are genuine: the
-# oracle fails on the real code.  Until the coordinator lists them in known_findings.json (or fixes
-# /repo) exactly these records are filtered; the match is structural and narrow (see pending_key).
-# ------------------------------------------------------------------------------------------------
-PENDING_FINDINGS = [
-    {"key": "F5", "what": "will_static_cast_overflow<I>(x) is false for the floating value x = max(I)+1 = 2^k when max(I) "
-                          "is not representable in the floating type (float->{i32,u32,i64,u64}, double->{i64,u64}): the "
-                          "bound static_cast<F>(max(I)) rounds up to 2^k and the comparison is '>'; "
-                          "is_conversion_lossy<I> is false and the cast is undefined behaviour"},
-    {"key": "F9", "what": "integral source, floating target: the result is the correctly rounded, not the exact, value "
-                          "(e.g. int64 2^53+1 -> double) and is never reported lossy (library convention: floating "
-                          "destinations are treated as value-preserving)"},
-    {"key": "C05-FOVF", "what": "floating common type: the overflow check compares x against the ROUNDED quotient max/mag; for x equal to that "
-                           "threshold when it was rounded up (1 value per sign and factor) x*mag overflows to inf although neither "
-                           "will_conversion_overflow nor is_conversion_lossy reports it (e.g. float 0x1.12e0bep+98 x 10^9)"},
-    {"key": "C05-UB", "what": "will_conversion_truncate<T> / is_conversion_lossy<T> evaluate coerce_in on the common-type value "
-                           "without having checked overflow first: signed integer overflow (UB) inside the checker for inputs "
-                           "that will_conversion_overflow<T> then reports (e.g. int32 2^30 x 3/2 -> int32)"},
-]
-
-F5_PAIRS = {("f32", "i32"), ("f32", "u32"), ("f32", "i64"), ("f32", "u64"), ("f64", "i64"), ("f64", "u64")}
+# Known findings of this property live in /verif/known_findings.json (F9: integral -> floating results are rounded and
+# never reported — library convention; F18: the floating overflow check compares against a rounded quotient).  Their
+# violation records carry the fields those entries match on: F9 {"observable": "value-inexact", "within_4ulp": true};
+# F18 {"observable": "cleared-unsound", "mid_is_inf": true, "exact_product_within_one_rounding_of_max": true,
+# "target_is_common": true}.  vlib.finish / vlib.classify do the matching.
+#
+# Observation kept outside the findings (it is outside the statement of C05, which only constrains inputs for which
+# is_conversion_lossy<T> is false): will_conversion_truncate<T> evaluates coerce_in on the common-type value without an
+# overflow check first, so the checker itself executes signed overflow on inputs that will_conversion_overflow<T> then
+# reports (e.g. int32 2^30 x 3/2 -> int32; Lean: C05_checkers_ub_only_if_overflow).  It is counted in
+# coverage.distribution.observations.  A sanitizer report inside a checker for an input that is NOT reported lossy would
+# still be a violation (the verdict the property relies on would come from an undefined evaluation).
 
 FLT = {"f32": ("float", 24, 127), "f64": ("double", 53, 1023), "f80": ("long double", 64, 16383)}
 ALL = list(INT_TYPES) + list(FLT)
@@ -591,7 +581,7 @@ static i128 lo_of(int bits, int sg) { return sg ? -((i128)1 << (bits - 1)) : 0; 
 static i128 hi_of(int bits, int sg) { return sg ? ((i128)1 << (bits - 1)) - 1 : ((i128)1 << bits) - 1; }
 
 // The checkers run in a forked child, the conversions in the parent: UBSan reports a source location only
-// once per process, and the <T> checkers themselves overflow on some inputs (finding C05-UB); a report raised
+// once per process, and the <T> checkers themselves overflow on some inputs (see the observation note at the top of tools/p_c05.py); a report raised
 // inside a checker must not mask a later report inside a checker-cleared conversion.
 struct Flags { unsigned char ovf, tr, lossy, ub; };
 static Flags* g_shared = nullptr; static const size_t SHARED_N = 70000;
@@ -898,7 +888,10 @@ def judge(ins, x, r):
         stages, q, exact = stage_ok_int(ins, x)
         y = x * n
         if ubc:
-            out.append(("checker-ub", "a <T> checker executes undefined behaviour (sanitizer report inside the checker)",
+            explained = (not stages) and ovf and lossy
+            out.append(("checker-ub-observed" if explained else "checker-ub-unreported",
+                        "a <T> checker executes undefined behaviour (sanitizer report inside the checker)"
+                        + ("" if explained else " on an input it does not report as overflowing"),
                         {"reported_lossy": lossy, "reported_ovf": ovf, "exact_overflow": not stages}))
         if ovf and stages:
             out.append(("ovf-unreal", "overflow reported although the exact value of every stage is in that stage's range", {}))
@@ -945,28 +938,6 @@ def judge(ins, x, r):
                          "exact_product_within_one_rounding_of_max": fmax(c) < ex <= fmax(c) * (1 + Fraction(4, 2 ** pc)),
                          "target_is_common": t == c}))
     return out
-
-
-def pending_key(v):
-    """Narrow structural match of the pending findings (see PENDING_FINDINGS)."""
-    r = v.get("rec", {})
-    ob = r.get("observable")
-    if ob == "cleared-unsound" and (r.get("S"), r.get("T")) in F5_PAIRS and r.get("mid_is_hi_plus_1") is True \
-            and r.get("integer") is True and r.get("castable") is False:
-        return "F5"
-    if ob == "cleared-unsound" and not is_int(r.get("S", "i8")) and not is_int(r.get("T", "i8")) and r.get("mid_is_inf") is True \
-            and r.get("exact_product_within_one_rounding_of_max") is True and r.get("target_is_common") is True and r.get("ub") == 0:
-        return "C05-FOVF"
-    if ob == "value-inexact" and is_int(r.get("S", "f")) and not is_int(r.get("T", "i8")) and r.get("within_4ulp") is True:
-        return "F9"
-    if ob == "checker-ub" and is_int(r.get("S", "f")) and is_int(r.get("T", "f")) and r.get("exact_overflow") is True \
-            and r.get("reported_ovf") is True and r.get("reported_lossy") is True:
-        return "C05-UB"
-    if ob == "checker-ub-sweep" and r.get("unexplained") == 0:
-        return "C05-UB"
-    if ob == "cast-unsound" and (r.get("S"), r.get("T")) in F5_PAIRS and r.get("x_is_hi_plus_1") is True:
-        return "F5"
-    return None
 
 
 # ------------------------------------------------------------------------------------------------
@@ -1071,7 +1042,7 @@ def compare_point(ins, r, mm, b):
     if mm["ovf"] == "ub":
         return False                       # the model's overflow pipeline never evaluates anything undefined
     if mm["trunc"] == "ub":
-        # UB inside the truncation checker (C05-UB): every non-trapping evaluation returns false for integral reps
+        # UB inside the truncation checker (observation, see top): every non-trapping evaluation returns false for integral reps
         if (r["ovf"], r["trunc"], r["lossy"]) != (mm["ovf"], "0", "1" if mm["ovf"] == "1" else "0"):
             return False
     elif (r["ovf"], r["trunc"], r["lossy"]) != (mm["ovf"], mm["trunc"], mm["lossy"]):
@@ -1095,18 +1066,23 @@ def explore(tier, seed, rng, wd, only=None, only_casts=None):
     insts = only if only is not None else gen_instances(rng, tier)
     by_id = {i["id"]: i for i in insts}
     violations = []
-    pending = {}
+    observations = {"checker_ub": {"count": 0, "example": None,
+                                   "what": "will_conversion_truncate<T> / is_conversion_lossy<T> execute signed overflow inside the checker on "
+                                           "inputs that will_conversion_overflow<T> reports (outside the statement of C05)"}}
     stats = {"instances": len(insts), "pairs": len({(i["S"], i["T"]) for i in insts}), "points": 0, "sweeps": 0, "sweep_values": 0,
              "fsweeps": 0, "fsweep_values": 0, "cast_points": 0, "cleared": 0, "flagged": 0, "model_ub_checker": 0,
              "configs": [], "by_class": {}, "neg_probes": 0, "noncompiling": 0, "gv_compared": 0, "float_specials": 0,
              "inexact_int_to_float_in_sweeps": 0, "sweeps_with_checker_ub": 0, "timing": {}}
 
     def add_violation(v):
-        k = pending_key(v)
-        if k:
-            pending.setdefault(k, []).append(v)
-        else:
-            violations.append(v)
+        ob = v.get("rec", {}).get("observable")
+        if ob == "checker-ub-observed" or (ob == "checker-ub-sweep" and v["rec"].get("unexplained") == 0):
+            o = observations["checker_ub"]
+            o["count"] += 1
+            if o["example"] is None:
+                o["example"] = {k: x for k, x in v["rec"].items() if k not in ("impl", "model")}
+            return
+        violations.append(v)
 
     # which instances compile (model) — the others are negative probes only
     zero = {i["id"]: (0 if is_int(i["S"]) else Fraction(0)) for i in insts}
@@ -1344,8 +1320,7 @@ def explore(tier, seed, rng, wd, only=None, only_casts=None):
             violations.append({"what": "negative probe rejected for an unexpected reason", "class": "corr-probe", "no_input": True,
                                "broken": "probe allow-list", "rec": dict(base, out=out[-800:])})
     total = stats["points"] + stats["sweep_values"] + stats["fsweep_values"] + stats["cast_points"]
-    stats["pending_findings"] = {k: len(v) for k, v in pending.items()}
-    stats["pending_examples"] = {k: v[0]["rec"] for k, v in pending.items()}
+    stats["observations"] = observations
     coverage = {
         "evaluations": total,
         "distinct_nontrivial": len(distinct),
@@ -1358,10 +1333,9 @@ def explore(tier, seed, rng, wd, only=None, only_casts=None):
         "samples": samples,
         "exhaustive": False,
         "distribution": stats,
-        "pending_findings": [dict(f, cases=len(pending.get(f["key"], []))) for f in PENDING_FINDINGS],
         "explore_s": round(time.time() - t0, 2),
     }
-    return coverage, violations, pending
+    return coverage, violations
 
 
 # ------------------------------------------------------------------------------------------------
@@ -1458,15 +1432,11 @@ def main(tier, seed):
     if rows:
         write_cast_consts(rows)
     proof = prove(PROP)
-    cov, viol, pending = explore(tier, seed, rng_for(PROP, seed), wd)
+    cov, viol = explore(tier, seed, rng_for(PROP, seed), wd)
     for pr in problems:
         viol.append({"what": "extraction of the cast constants: " + pr, "class": "extraction", "no_input": True,
                      "broken": "extraction: Generated/CastConsts.lean", "rec": {"kind": "extraction"}})
     cov["cast_constants_extracted"] = len(rows or [])
-    for f in PENDING_FINDINGS:
-        if pending.get(f["key"]):
-            print(f"PENDING-FINDING: property={PROP} {f['key']}: {f['what']} ({len(pending[f['key']])} matching case(s) this run; "
-                  f"e.g. {json.dumps({k: v for k, v in pending[f['key']][0]['rec'].items() if k not in ('impl', 'model')}, default=str)[:400]})")
     return finish(PROP, tier, seed, t0, proof, cov, viol, ASSUME)
 
 
@@ -1501,15 +1471,22 @@ def replay(path):
     global _REPLAY_CONFIG
     _REPLAY_CONFIG = (comp, std, "rp")
     try:
-        cov, viol, pending = explore("quick", 0, rng_for(PROP, 0), wd, only=[ins], only_casts=casts)
+        cov, viol = explore("quick", 0, rng_for(PROP, 0), wd, only=[ins], only_casts=casts)
     finally:
         _REPLAY_CONFIG = None
-    allv = viol + [v for vs in pending.values() for v in vs]
+    allv = viol
     for v in allv:
         print("  -", v["what"])
         for k in ("impl", "model"):
             if k in v.get("rec", {}):
                 print(f"      {k}: {v['rec'][k]}")
+    ob = cov["distribution"]["observations"]["checker_ub"]
+    if ob["count"]:
+        print("  observation (outside the statement of C05):", ob["what"], "-", json.dumps(ob["example"], default=str))
+    from vlib import classify
+    known, allv = classify(PROP, allv)
+    for f, vs in known:
+        print(f"KNOWN-FINDING: property={PROP} {f['key']}: {f['what']} ({len(vs)} matching case(s))")
     if allv:
         concrete = [v for v in allv if not v.get("no_input")]
         print(f"VIOLATION property={PROP} replay={path}" + ("" if concrete else " no-failing-input-found"))
